@@ -641,6 +641,14 @@ def run_procs(case, env, mode):
         for i, p in enumerate(ps):
             fp.add(pids[i], starttime=777)
             objs.append(psutil.Popen(pids[i]) if i in popen else psutil.Process(pids[i]))
+        # handles: [process index, key]; key 0 = the object above, key k > 0 = another, equal Process object of
+        # the same process (as parent.children() + [Process(pid)] would give)
+        handles = case.get("handles") or [[i, 0] for i in range(n)]
+        hobj = {(i, 0): objs[i] for i in range(n)}
+        for i, k in handles:
+            if (i, k) not in hobj:
+                hobj[(i, k)] = psutil.Process(pids[i])
+        inputs = [hobj[(i, k)] for i, k in handles]
     # the steering assumption, checked on the concrete objects: every sub-set iterates in priority order
     full = set(objs)
     for r in range(0, n + 1):
@@ -659,16 +667,21 @@ def run_procs(case, env, mode):
 
     orig_pwait = psutil.Popen.wait
 
+    waited_ids, cb_ids = [], []
+
     def rec_wait(self, timeout=None):
         if not isinstance(self, psutil.Popen):      # a Popen is logged once, at its own wait()
+            waited_ids.append(id(self))
             waits.append([idx_of.get(self.pid, -1), snapq(timeout) if timeout is not None else None])
         return orig_wait(self, timeout)
 
     def rec_pwait(self, timeout=None):
+        waited_ids.append(id(self))
         waits.append([idx_of.get(self.pid, -1), snapq(timeout) if timeout is not None else None])
         return orig_pwait(self, timeout)
 
     def callback(proc):
+        cb_ids.append(id(proc))
         cbs.append(idx_of.get(proc.pid, -1))
         if "returncode" not in vars(proc):
             cbs.append(-2)
@@ -684,6 +697,8 @@ def run_procs(case, env, mode):
         for i, how in sorted(popen.items()):
             want = spec_code(ps[i]["status"])
             try:
+                if how["reap"] == "none":
+                    continue             # an un-collected Popen: nothing happens before wait_procs
                 if how["reap"] == "poll":
                     objs[i].poll()
                 elif how["reap"] == "communicate":
@@ -719,7 +734,7 @@ def run_procs(case, env, mode):
     try:
         with Patched(vk):
             try:
-                r = psutil.wait_procs(_container(objs, case.get("procs_as", "list")), timeout=tm, callback=cb)
+                r = psutil.wait_procs(_container(inputs, case.get("procs_as", "list")), timeout=tm, callback=cb)
                 exc = None
             except BaseException as e:  # noqa
                 if isinstance(e, (KeyboardInterrupt, SystemExit)) or type(e).__name__ == "CaseTimeout":
@@ -740,16 +755,39 @@ def run_procs(case, env, mode):
         except Exception:
             shape_ok = False
     rc = []
-    for i, o in enumerate(objs):
-        if "returncode" in vars(o):      # set by wait_procs on the object itself (a Popen also delegates the name)
+    alias_bad = []
+    in_ids = {id(o) for o in inputs}
+    ret_objs = (list(r[0]) + list(r[1])) if (r is not None and shape_ok) else []
+    for o in ret_objs:
+        if id(o) not in in_ids:
+            alias_bad.append("an object that was not in the input is returned (pid index %s)" % idx_of.get(o.pid))
+        if id(o) not in waited_ids:
+            alias_bad.append("process %s is returned without having been waited for" % idx_of.get(o.pid))
+    if len({id(o) for o in ret_objs}) != len(ret_objs):
+        alias_bad.append("the same object is returned twice")
+    if r is not None and shape_ok:
+        for o in r[0]:
+            if case["cb"] in CB_CALLABLE and cb_ids.count(id(o)) != 1:
+                alias_bad.append("gone object of process %s got %d callbacks" % (idx_of.get(o.pid), cb_ids.count(id(o))))
+    # returncode as wait_procs set it on the object itself (a Popen also delegates the name): one row per process
+    seen_rc = {}
+    for o in list(hobj.values()):
+        if "returncode" in vars(o):
+            i = idx_of.get(o.pid, -1)
             v = vars(o)["returncode"]
-            rc.append([i, None if v is None else (T("Int", int(v)) if isinstance(v, int) else T("Value", repr(v)))])
+            seen_rc.setdefault(i, []).append(None if v is None else (T("Int", int(v)) if isinstance(v, int) else T("Value", repr(v))))
+    for i in sorted(seen_rc):
+        if len(seen_rc[i]) > 1:
+            alias_bad.append("returncode was set on %d objects of process %d" % (len(seen_rc[i]), i))
+        rc.append([i, seen_rc[i][0]])
     res = {"exc": exc, "gone": gone, "alive": alive, "rc": rc, "cbs": cbs, "sleeps": [q(s) for s in vk.sleeps],
            "ret": q(vk.clock), "waits": waits}
     if not shape_ok:
         res["exc"] = T("BadShape")
     if pre_bad:
         res["exc"] = T("PreWait", "; ".join(pre_bad))
+    if alias_bad:
+        res["exc"] = T("Alias", "; ".join(alias_bad))
     return res
 
 
@@ -876,8 +914,9 @@ def spec_procs(case, o, tol=0):
     if exc is not None:
         return ["wait_procs raised %r" % (exc,)]
     gone, alive = o["gone"], o["alive"]
-    if sorted(gone + alive) != list(range(n)):
-        fails.append("gone %r / alive %r do not cover the input exactly once" % (gone, alive))
+    want_cover = sorted({h[0] for h in case["handles"]}) if case.get("handles") else list(range(n))
+    if sorted(gone + alive) != want_cover:
+        fails.append("gone %r / alive %r are not the distinct processes of the input %r, each once" % (gone, alive, want_cover))
     rc = {i: v for i, v in o["rc"]}
     if len(rc) != len(o["rc"]):
         fails.append("duplicate returncode rows")
